@@ -22,7 +22,7 @@ use c06_gen::*;
 static STARTED_AT_MS: AtomicU64 = AtomicU64::new(0);
 static CUR_ID: AtomicU64 = AtomicU64::new(u64::MAX);
 static PANICS: std::sync::Mutex<Vec<String>> = std::sync::Mutex::new(Vec::new());
-const PER_INPUT_LIMIT_MS: u64 = 30_000;
+static PER_INPUT_LIMIT_MS: AtomicU64 = AtomicU64::new(30_000);
 
 fn now_ms(t0: Instant) -> u64 {
     t0.elapsed().as_millis() as u64 + 1
@@ -43,8 +43,21 @@ fn class_of<T>(r: std::thread::Result<Result<T, tera::Error>>) -> String {
     match r {
         Ok(Ok(_)) => "ok".into(),
         Ok(Err(e)) => {
-            // an error value must also be displayable
-            let shown = std::panic::catch_unwind(std::panic::AssertUnwindSafe(|| format!("{e}").len()));
+            // an error value must also be displayable: `{}`, `{:?}` and every link of source()
+            let shown = std::panic::catch_unwind(std::panic::AssertUnwindSafe(|| {
+                let mut n = format!("{e}").len() + format!("{e:?}").len() + format!("{e:#?}").len();
+                let mut src = std::error::Error::source(&e);
+                let mut hops = 0;
+                while let Some(x) = src {
+                    n += format!("{x}").len() + format!("{x:?}").len();
+                    src = x.source();
+                    hops += 1;
+                    if hops > 64 {
+                        break;
+                    }
+                }
+                n
+            }));
             match shown {
                 Ok(_) => format!("err:{}", err_class(&e)),
                 Err(_) => "panic:while displaying the error".into(),
@@ -105,7 +118,20 @@ fn run_one(inp: &J) -> J {
         }
         dres = class_of(r);
     }
-    let reg = class_of(std::panic::catch_unwind(std::panic::AssertUnwindSafe(|| tera.add_raw_template(name, src))));
+    let reg = class_of(std::panic::catch_unwind(std::panic::AssertUnwindSafe(|| {
+        match inp["set"].as_array() {
+            // registered together with other templates (parents, include targets)
+            Some(set) => {
+                let mut all: Vec<(String, String)> = set
+                    .iter()
+                    .map(|p| (p[0].as_str().unwrap_or("").to_string(), p[1].as_str().unwrap_or("").to_string()))
+                    .collect();
+                all.push((name.to_string(), src.to_string()));
+                tera.add_raw_templates(all)
+            }
+            None => tera.add_raw_template(name, src),
+        }
+    })));
     let ren = class_of(std::panic::catch_unwind(std::panic::AssertUnwindSafe(|| {
         tera.render_str(src, &Context::new(), true)
     })));
@@ -137,6 +163,9 @@ fn run_one(inp: &J) -> J {
 
 fn child_main(args: &[String]) {
     let (inputs, results, mode) = (&args[0], &args[1], args[2].as_str());
+    if let Some(ms) = args.get(3).and_then(|x| x.parse::<u64>().ok()) {
+        PER_INPUT_LIMIT_MS.store(ms, Ordering::SeqCst);
+    }
     let t0 = Instant::now();
     std::panic::set_hook(Box::new(|info| {
         if let Ok(mut p) = PANICS.lock() {
@@ -153,7 +182,7 @@ fn child_main(args: &[String]) {
             loop {
                 std::thread::sleep(Duration::from_millis(100));
                 let st = STARTED_AT_MS.load(Ordering::SeqCst);
-                if st != 0 && now_ms(t0) > st + PER_INPUT_LIMIT_MS {
+                if st != 0 && now_ms(t0) > st + PER_INPUT_LIMIT_MS.load(Ordering::SeqCst) {
                     let id = CUR_ID.load(Ordering::SeqCst);
                     if let Ok(mut f) = std::fs::OpenOptions::new().append(true).open(&results) {
                         let _ = writeln!(f, "T {id}");
@@ -209,7 +238,7 @@ pub enum ChildRes {
 /// Runs all inputs through child processes in `mode` ("thread" | "main"); a crash or hang is
 /// attributed to the input that was started and not finished, and a fresh child continues
 /// with the inputs after it.
-fn run_children(dir: &Path, tag: &str, inputs: &[J], mode: &str) -> Vec<ChildRes> {
+fn run_children_limit(dir: &Path, tag: &str, inputs: &[J], mode: &str, limit_ms: u64) -> Vec<ChildRes> {
     let exe = std::env::current_exe().expect("exe");
     let mut out = vec![ChildRes::NotRun; inputs.len()];
     let mut pos = 0usize;
@@ -230,8 +259,8 @@ fn run_children(dir: &Path, tag: &str, inputs: &[J], mode: &str) -> Vec<ChildRes
         }
         let _ = std::fs::remove_file(&ouf);
         let cmd = format!(
-            "ulimit -s 8192; exec '{}' child '{}' '{}' {}",
-            exe.display(), inf.display(), ouf.display(), mode
+            "ulimit -s 8192; exec '{}' child '{}' '{}' {} {}",
+            exe.display(), inf.display(), ouf.display(), mode, limit_ms
         );
         let mut ch = std::process::Command::new("sh")
             .arg("-c")
@@ -240,7 +269,7 @@ fn run_children(dir: &Path, tag: &str, inputs: &[J], mode: &str) -> Vec<ChildRes
             .stderr(std::process::Stdio::null())
             .spawn()
             .expect("spawn child");
-        let deadline = Instant::now() + Duration::from_secs(600);
+        let deadline = Instant::now() + Duration::from_secs(1200);
         let status = loop {
             match ch.try_wait() {
                 Ok(Some(st)) => break Some(st),
@@ -307,6 +336,19 @@ fn run_children(dir: &Path, tag: &str, inputs: &[J], mode: &str) -> Vec<ChildRes
         }
     }
     out
+}
+
+/// 30 s per input; an input that does not finish is run again alone with 5 minutes before it is
+/// called a hang (a starved machine must not look like a hang of the engine).
+fn run_children(dir: &Path, tag: &str, inputs: &[J], mode: &str) -> Vec<ChildRes> {
+    let mut res = run_children_limit(dir, tag, inputs, mode, 30_000);
+    for i in 0..res.len() {
+        if matches!(res[i], ChildRes::Timeout) {
+            let again = run_children_limit(dir, &format!("{tag}-retry{i}"), &inputs[i..i + 1], mode, 300_000);
+            res[i] = again.into_iter().next().unwrap_or(ChildRes::Timeout);
+        }
+    }
+    res
 }
 
 fn res_json(r: &ChildRes) -> J {
@@ -452,7 +494,7 @@ fn main() {
                     meta.oracle_fail(
                         &format!("registration did not end in Ok or Err: {what} [{} stack]", if mode == "thread" { "2 MiB thread" } else { "8 MiB main-thread" }),
                         inp.kf(),
-                        json!({"class": inp.class, "stream": inp.stream, "name": short(&inp.name), "delimiters": inp.delims,
+                        json!({"class": inp.class, "stream": inp.stream, "name": short(&inp.name), "delimiters": inp.delims, "set": inp.set,
                                "source": short(&inp.src), "recipe": inp.recipe, "mode": mode, "result": res_json(r)}),
                     );
                 }
@@ -508,6 +550,9 @@ fn replay(rp: &PathBuf, out: &Path) {
     let mut j = json!({"name": name, "src": src});
     if inp.get("delimiters").map_or(false, |d| d.is_array()) {
         j["d"] = inp["delimiters"].clone();
+    }
+    if inp.get("set").map_or(false, |d| d.is_array() && !d.as_array().unwrap().is_empty()) {
+        j["set"] = inp["set"].clone();
     }
     std::fs::create_dir_all(out).ok();
     for mode in ["thread", "main"] {
